@@ -153,6 +153,16 @@ inline std::string gen_numeral(Entropy &e) {
     if (e.chance(35)) {
         s += "-";
     }
+    if (e.chance(10)) { // long runs of nines just below a power of two / ten: rounding carries through the whole significand
+        static const char *heads[] = {"1", "3", "1023", "4294967295", "9", "0"};
+        std::string         digits = std::string(heads[e.below(6)]) + std::string(14 + e.below(8), '9');
+        size_t              point  = (digits[0] == '0') ? 1 : 1 + e.below(uint32_t(digits.size())); // no leading zeros in RFC 8259
+        s += digits.substr(0, point) + (point < digits.size() ? "." + digits.substr(point) : "");
+        if (e.chance(30)) {
+            s += "e-" + std::to_string(e.below(20));
+        }
+        return s;
+    }
     switch (e.below(8)) {
         case 0: s += "0"; break;
         case 1: s += gen_digits(e, 1 + e.below(3), true); break;
